@@ -362,6 +362,7 @@ fn draw_aop(r: &mut Rng, dlen: usize) -> AOp {
                 0 => 0,
                 1..=4 => r.range(1, 5),
                 5..=7 => r.range(6, 300),
+                8 => r.range(1, (dlen as u64).max(1)),
                 _ => dlen as u64,
             } as u32;
             AOp::Update { off: r.below(dlen as u64 + 1) as u32, len }
@@ -408,7 +409,12 @@ impl Scenario for C18 {
          distinct = distinct history digests; non-trivial = at least 3 armed calls; states = (variant, op kind, first-call-of-this-kind-in-the-run?)"
     }
     fn generate(&self, r: &mut Rng, _index: u64) -> Hist {
-        let len = draw_small_len(r).min(5000);
+        let len = if r.chance(1, 40) {
+            // pieces at and above block sizes (64 KiB, 1 MiB): a size-dependent path must not allocate either
+            *r.pick(&[65535usize, 65536, 65537, 131072, 300_000, (1 << 20) - 1, 1 << 20, (1 << 20) + 1, 2_500_000])
+        } else {
+            draw_small_len(r).min(5000)
+        };
         let data = draw_data(r, len);
         let n = r.range(1, 30) as usize;
         let ops = (0..n).map(|_| draw_aop(r, len)).collect();
